@@ -58,3 +58,25 @@ add("C09", "exploration",
     "the client's single EOM-framed hello with exactly the selected base, and the framing of the next two RPCs with an independent strict codec. Hellos outside the "
     "stated form and transport faults during the exchange are not covered.",
     "DESIGN.md §3 C09", "real netconf.Driver.Open + RPCs against a strict NETCONF server model over a causal PRNG-segmented transport; reference = 12-cell decision table + encoding/xml reading of the sent hello")
+
+add("C08", "exploration",
+    "Exploration: 150 (quick) / 4000 (thorough) generated sessions (~2.8k / 78k RPCs) across {1.0,1.1} x {echo,no echo} x 8 segmentations x 8 reply chunkings (including "
+    "boundaries inside message-id=\"...\" and bodies quoting foreign message-ids) x 8 late-release points; ids beyond 200 observed. For every history a server-side "
+    "monitor checks ids start at 101 and strictly increase, and every returned Result is compared with the exact reply sent for that request (unique nonce); a "
+    "planned-now timeout counts only when the transport had delivered the whole reply well before the deadline, else inconclusive.",
+    "DESIGN.md §3 C08", "real netconf.Driver over a causal transport model and a scripted NETCONF server model: PRNG histories with now/late/never plans (late released logically after the observed timeout), nonce-tagged replies, server-side id monitor, delivered-offset rule")
+
+add("C02", "exploration",
+    "Exploration. The 1.1/1.0 reply decoder is compared with an independent tolerant reference on every byte string over a 7-symbol framing alphabet up to length 6 (quick) / 7 "
+    "(thorough), on PRNG legal frames (all chunk-partition classes, edges forced into runes, markers, message-id, declaration) and mutated frames, without panics; the real "
+    "driver must return exactly the trimmed payload with the right Failed under all modelled segmentations including boundaries inside headers, end markers and delimiters. "
+    "Not covered: CR/ESC in payloads, other spellings of the XML declaration, two server messages in one read; 1.1 data lines starting with '##' are a recorded known finding.",
+    "DESIGN.md §3 C02", "reference-decoder differential (exhaustive short strings + PRNG legal/mutated frames) on the public decoder API, and real NETCONF driver against causal transport/server models with PRNG and placed read boundaries")
+
+add("C07", "fault_enumeration",
+    "Runs the real drivers under the Go race detector with named yield points compiled in (-tags verif): a base matrix of drivers x 12 connection states at Close x transport "
+    "close behaviour x read delay, every ordered pair of yield points of different goroutine groups forced for the concurrent states (infeasible orders are released and "
+    "counted), random-delay runs, and sessions/scenarios of other properties replayed for the 'during the session' clause. Monitors: Close bounded, no panic (caller and "
+    "process level), transport closed, no library-created goroutine left 2 s after Close, race-detector log parsed and deduplicated. Orders between un-instrumented "
+    "instructions are reached by stress only.",
+    "DESIGN.md §3 C07", "race detector + forced schedules at instrumented yield points + goroutine-leak probe over a state matrix of real sessions on a transport model")
